@@ -57,10 +57,12 @@ def search(ctx, factor):
 def run(ctx):
     ctx.search = search
     ctx.trusted += ["segment-table emitter of the translator (three transaction-code switches and two service-class switches of SegmentFile; calculateBatchAmounts / calculateADVBatchAmounts lists; StandardTransactionCode list)",
-                    "hand model of the batch walk, fresh-batch tabulation, File.Create renumbering and the File.Validate fragment (coq/Model/Segment.v), tied by the extracted-model correspondence"]
+                    "hand model of the batch walk, fresh-batch tabulation, File.Create renumbering and the File.Validate fragment (coq/Model/Segment.v), tied by the extracted-model correspondence",
+                    "phase 3: hand model of File.AddBatch / Batch.Category / Batch.isCategory (coq/Model/SegmentGen.v) and the abstraction of generated files (harness/internal/c1113x: tags in DFIAccountNumber, interned identifications, list positions by pointer identity), tied by the generated-file correspondence"]
     ctx.assumptions += ["validation is modelled as the fragment that matters for segmentation (standard batches: class vs directions, control totals, standard codes; file totals; ascending batch numbers of f.Batches; ADV files: file totals only); IAT and ADV batches are assumed well-formed as generated (File.Validate does not look inside them); the full Validate of both outputs is exercised by the oracle",
                         "entry identity = the entry with its addenda as moved by pointer; trace numbers of split IAT batches are re-sequenced by the code and excluded from the identity",
-                        "integers unbounded (amounts up to 10 digits, sums far below 2^63)"]
+                        "integers unbounded (amounts up to 10 digits, sums far below 2^63)",
+                        "EntryDetail.Category is a function of the entry identity (entries are moved by pointer); the union of the two halves' ReturnEntries / NotificationOfChange lists and success with the category check are stated for category-uniform batches (what ach.Reader yields)"]
     if not build(ctx):
         return
     d = os.path.join(ctx.rundir, "corr")
